@@ -159,20 +159,21 @@ Qed.
 
 Lemma tables_ok :
   all_guarded gen_authmsgs gen_handlers gen_lookups = true /\
+  str_pairs_eqb gen_dep_files dep_files_expected = true /\
   String.eqb gen_authaddr_expr authaddr_expected = true /\
   (0 <? gen_authaddr_uses) = true.
 Proof. vm_compute. repeat split. Qed.
 
 Lemma all_guarded_spec : forall ms hs ls,
   all_guarded ms hs ls = true ->
-  (forall m, In m ms -> am_in_fx m = true ->
+  (forall m, In m ms ->
      (exists r, In r hs /\ h_url r = am_url m) /\
      (forall r, In r hs -> h_url r = am_url m -> row_ok hs ls r = true)) /\
   (forall r, In r hs -> row_ok hs ls r = true).
 Proof.
   intros ms hs ls H. unfold all_guarded in H. apply andb_true_iff in H. destruct H as [H1 H2].
   rewrite forallb_forall in H1, H2. split; [|exact H2].
-  intros m Hm Hfx. specialize (H1 m Hm). unfold msg_guarded in H1. rewrite Hfx in H1. simpl in H1.
+  intros m Hm. specialize (H1 m Hm). unfold msg_guarded in H1.
   split.
   - destruct (rows_for hs (am_url m)) as [|r rs] eqn:E; [discriminate|].
     assert (Hin : In r (rows_for hs (am_url m))) by (rewrite E; left; reflexivity).
@@ -182,8 +183,10 @@ Proof.
 Qed.
 
 Lemma row_ok_nondelegate : forall hs ls r,
-  row_ok hs ls r = true -> is_delegate r = false -> guards_first r = true.
-Proof. intros hs ls r H D. unfold row_ok in H. rewrite D in H. exact H. Qed.
+  row_ok hs ls r = true -> is_delegate r = false -> guards_first r = true \/ exception_ok r = true.
+Proof.
+  intros hs ls r H D. unfold row_ok in H. rewrite D in H. apply orb_true_iff in H. exact H.
+Qed.
 
 Lemma row_ok_delegate : forall hs ls r,
   row_ok hs ls r = true -> is_delegate r = true ->
@@ -200,52 +203,88 @@ Proof.
   - apply negb_true_iff; assumption.
 Qed.
 
-(* every fx-core privileged message of the running app has a handler in fx-core's sources; each of
-   its handlers either compares the authority with the keeper's before any call, or is the router
-   forwarding — after a lookup that only reads the route table — to such a handler *)
+Lemma exception_ok_spec : forall r, exception_ok r = true ->
+  In (h_url r, h_against r) guard_exceptions /\ 0 <= h_guard_idx r /\ h_kind r = CmpNeq.
+Proof.
+  intros r H. unfold exception_ok in H.
+  apply andb_true_iff in H. destruct H as [H K]. apply andb_true_iff in H. destruct H as [E G].
+  apply existsb_exists in E. destruct E as [[u a] [Hin E]]. simpl in E.
+  apply andb_true_iff in E. destruct E as [E1 E2]. apply String.eqb_eq in E1. apply String.eqb_eq in E2. subst.
+  split; [exact Hin|]. split; [apply Z.leb_le; exact G|]. destruct (h_kind r); try discriminate. reflexivity.
+Qed.
+
+(* EVERY authority-carrying message type routable in the running app (fx-core's, cosmos-sdk's, ibc-go's,
+   ethermint's) has a handler in the sources read at the pinned versions; each of its handlers either compares
+   the authority with the keeper's before any call, or is the crosschain router forwarding — after a lookup
+   that only reads the route table — to such a handler, or is one of the committed exceptions (a recognised
+   `!=` guard that is not the first effectful statement; today exactly x/gov ExecLegacyContent) *)
 Theorem all_guarded_thm :
-  (forall m, In m gen_authmsgs -> am_in_fx m = true ->
+  (forall m, In m gen_authmsgs ->
      (exists r, In r gen_handlers /\ h_url r = am_url m) /\
      (forall r, In r gen_handlers -> h_url r = am_url m ->
         (is_delegate r = false /\ guards_first r = true) \/
         (is_delegate r = true /\ lookup_ok gen_lookups (h_file r) (h_delegate_via r) = true /\
          exists t, In t gen_handlers /\ h_url t = h_url r /\ h_name t = h_delegate r /\
-                   is_delegate t = false /\ guards_first t = true))) /\
-  gen_authaddr_expr = authaddr_expected.
+                   is_delegate t = false /\ guards_first t = true) \/
+        (is_delegate r = false /\ In (h_url r, h_against r) guard_exceptions /\ 0 <= h_guard_idx r /\ h_kind r = CmpNeq))) /\
+  gen_authaddr_expr = authaddr_expected /\
+  gen_dep_files = dep_files_expected.
 Proof.
-  destruct tables_ok as [T [A _]]. split; [|apply String.eqb_eq; exact A].
-  destruct (all_guarded_spec _ _ _ T) as [S1 S2].
-  intros m Hm Hfx. destruct (S1 m Hm Hfx) as [E R]. split; [exact E|].
-  intros r Hr Hu. specialize (R r Hr Hu).
-  destruct (is_delegate r) eqn:D.
-  - right. split; [reflexivity|]. apply row_ok_delegate; assumption.
-  - left. split; [reflexivity|]. eapply row_ok_nondelegate; eassumption.
+  destruct tables_ok as [T [P [A _]]]. split; [|split; [apply String.eqb_eq; exact A|]].
+  - destruct (all_guarded_spec _ _ _ T) as [S1 S2].
+    intros m Hm. destruct (S1 m Hm) as [E R]. split; [exact E|].
+    intros r Hr Hu. specialize (R r Hr Hu).
+    destruct (is_delegate r) eqn:D.
+    + right. left. split; [reflexivity|]. apply row_ok_delegate; assumption.
+    + destruct (row_ok_nondelegate _ _ _ R D) as [G|X].
+      * left. split; [reflexivity|exact G].
+      * right. right. split; [reflexivity|]. apply exception_ok_spec. exact X.
+  - clear T A. revert P. generalize gen_dep_files, dep_files_expected. intros la.
+    induction la as [|[x1 y1] la IH]; intros lb; destruct lb as [|[x2 y2] lb]; simpl; intro H; try discriminate; [reflexivity|].
+    apply andb_true_iff in H. destruct H as [H H3]. apply andb_true_iff in H. destruct H as [H1 H2].
+    apply String.eqb_eq in H1. apply String.eqb_eq in H2. subst. f_equal. apply IH. exact H3.
 Qed.
 
-(* ... and therefore, for every self-checking handler row generated from the sources, whatever the
-   rest of the body does: a message whose authority fails the comparison returns an error and the
-   state it was given *)
+(* ... and therefore, for every self-checking handler row generated from the sources (all but the committed
+   exceptions), whatever the rest of the body does: a message whose authority fails the comparison returns an
+   error and the state it was given *)
 Theorem generated_handlers_reject_unchanged :
-  forall r, In r gen_handlers -> is_delegate r = false ->
+  forall r, In r gen_handlers -> is_delegate r = false -> exception_ok r = false ->
   forall (St Msg : Type) (authority_of : Msg -> str) gov pre body m st,
     guard_pass (h_kind r) gov (authority_of m) = false ->
     run St Msg authority_of gov (stmts_of St Msg (h_guard_idx r) (h_kind r) (h_pre_effect r) pre body) m st = (Err, st).
 Proof.
-  intros r Hr D St Msg authority_of gov pre body m st H.
+  intros r Hr D X St Msg authority_of gov pre body m st H.
   destruct tables_ok as [T _]. destruct (all_guarded_spec _ _ _ T) as [_ S2].
   apply row_reject_unchanged; [|exact H].
-  eapply row_ok_nondelegate; [apply S2; exact Hr|exact D].
+  destruct (row_ok_nondelegate _ _ _ (S2 r Hr) D) as [G|G]; [exact G|congruence].
+Qed.
+
+(* the committed exceptions: the statements before the guard run first; when they are a read (return Ok and
+   the state they were given — GetGovernanceAccount on a chain whose gov account exists), rejection leaves the
+   state unchanged as well *)
+Theorem exception_rows_reject_unchanged :
+  forall r, In r gen_handlers -> exception_ok r = true -> h_pre_effect r = true ->
+  forall (St Msg : Type) (authority_of : Msg -> str) gov pre body m st,
+    pre m st = (Ok, st) ->
+    guard_pass (h_kind r) gov (authority_of m) = false ->
+    run St Msg authority_of gov (stmts_of St Msg (h_guard_idx r) (h_kind r) (h_pre_effect r) pre body) m st = (Err, st).
+Proof.
+  intros r Hr X PE St Msg authority_of gov pre body m st Hpre H.
+  apply exception_ok_spec in X. destruct X as [_ [G _]].
+  unfold stmts_of. destruct (h_guard_idx r <? 0) eqn:E; [apply Z.ltb_lt in E; lia|].
+  rewrite PE. simpl. rewrite Hpre. rewrite H. reflexivity.
 Qed.
 
 Theorem generated_handlers_effect_only_gov :
-  forall r, In r gen_handlers -> is_delegate r = false ->
+  forall r, In r gen_handlers -> is_delegate r = false -> exception_ok r = false ->
   forall (St Msg : Type) (authority_of : Msg -> str) gov pre body m st,
     run St Msg authority_of gov (stmts_of St Msg (h_guard_idx r) (h_kind r) (h_pre_effect r) pre body) m st <> (Err, st) ->
     denotes_gov (h_kind r) gov (authority_of m) /\ (h_kind r = CmpNeq \/ h_kind r = CmpEqualFold).
 Proof.
-  intros r Hr D St Msg authority_of gov pre body m st H.
+  intros r Hr D X St Msg authority_of gov pre body m st H.
   destruct tables_ok as [T _]. destruct (all_guarded_spec _ _ _ T) as [_ S2].
-  assert (G : guards_first r = true) by (eapply row_ok_nondelegate; [apply S2; exact Hr|exact D]).
+  assert (G : guards_first r = true) by (destruct (row_ok_nondelegate _ _ _ (S2 r Hr) D) as [G|G]; [exact G|congruence]).
   split.
   - eapply row_effect_only_gov; eassumption.
   - unfold guards_first in G. repeat (apply andb_true_iff in G; destruct G as [G ?]).
